@@ -3,6 +3,7 @@
 package main
 
 import (
+	"encoding/json"
 	"fmt"
 	"os"
 	"strings"
@@ -161,6 +162,24 @@ func main() {
 				os.Exit(1)
 			}
 			fmt.Println("no violation")
+		case "C11":
+			var rp conReplay
+			a.LoadReplay(&rp)
+			fmt.Println("C11 cases are replayed by re-running the (small) enumeration and reporting the named case:", rp.Case)
+			a.Shards, a.Shard = 1, 0
+			partC11(a, rep, univName, u)
+			bad := false
+			for _, f := range rep.Failures {
+				var c conReplay
+				if json.Unmarshal(f.Replay, &c) == nil && c.Case == rp.Case {
+					fmt.Println("FAIL:", f.Sig, f.Detail)
+					bad = true
+				}
+			}
+			if bad {
+				os.Exit(1)
+			}
+			fmt.Println("no violation")
 		case "C13":
 			var rp defReplay
 			a.LoadReplay(&rp)
@@ -227,6 +246,8 @@ func main() {
 		partC09(a, rep, univName, u)
 	case "C10":
 		partC10(a, rep, univName, u)
+	case "C11":
+		partC11(a, rep, univName, u)
 	case "C13":
 		partC13(a, rep, univName, u)
 	default:
